@@ -55,6 +55,52 @@ def run(ctx):
                         "between the loop guard and the 'not found' value, blocks tile the file backwards from its end")
     c02.plain_scan(ctx, rule="C07.R10")
     r11_plain_decoder(ctx, dec)
+    r12_no_shared_default(ctx)
+    r13_rows_unfiltered(ctx, proc)
+
+
+def r12_no_shared_default(ctx, rule="C07.R12"):
+    """The Safe* wrappers complete a component's params (family / env_type / eval_type) by writing into the mapping they obtained: a mutable default argument that escapes
+    (is returned or stored) is ONE object for every call, so the first component's completion shows up in every later component's params."""
+    ctx.rule(rule, "in coba/safety.py no parameter with a mutable literal default ({} / [] / set()) escapes its function: it is neither returned, nor stored on an object, nor written to")
+    SAF_ = "coba/safety.py"
+    n = 0
+    for (rel, qual), fn in sorted(ctx.model.functions.items()):
+        if rel != SAF_:
+            continue
+        args = fn.args
+        pos = args.args[len(args.args) - len(args.defaults):] if args.defaults else []
+        pairs = list(zip(pos, args.defaults)) + [(a_, d) for a_, d in zip(args.kwonlyargs, args.kw_defaults) if d is not None]
+        for a_, d in pairs:
+            if not (isinstance(d, (ast.Dict, ast.List, ast.Set)) or (isinstance(d, ast.Call) and call_name(d) in ("dict", "list", "set") and not d.args)):
+                continue
+            n += 1
+            P = a_.arg
+            returned = [r for r in ast.walk(fn) if isinstance(r, ast.Return) and r.value is not None and any(isinstance(y, ast.Name) and y.id == P and not isinstance(parent(y), (ast.Call, ast.keyword, ast.Starred)) for y in ast.walk(r.value))]
+            stored = [st for st in ast.walk(fn) if isinstance(st, ast.Assign) and isinstance(st.value, ast.Name) and st.value.id == P and any(isinstance(t, (ast.Attribute, ast.Subscript)) for t in st.targets)]
+            written = [st for st in ast.walk(fn) if (isinstance(st, (ast.Assign, ast.AugAssign, ast.Delete)) and any(isinstance(t, ast.Subscript) and isinstance(t.value, ast.Name) and t.value.id == P
+                                                                                                                       for t in (st.targets if not isinstance(st, ast.AugAssign) else [st.target])))
+                       or (isinstance(st, ast.Call) and isinstance(st.func, ast.Attribute) and isinstance(st.func.value, ast.Name) and st.func.value.id == P and st.func.attr in ("update", "setdefault", "append", "extend", "pop", "clear", "add"))]
+            ctx.ob(rule, SAF_, qual, (returned + stored + written + [fn])[0], f"the mutable default of `{P}` stays inside the function", not (returned or stored or written),
+                   detail={"returned": len(returned), "stored": len(stored), "written": len(written)}, stmt=f"{qual}({P}=<mutable default>)")
+    ctx.floor(rule, "parameters with a mutable default in coba/safety.py", n, 1)
+
+
+def r13_rows_unfiltered(ctx, proc, rule="C07.R13"):
+    """'exactly the rows its evaluator yielded, in order and numbered 1..N': an empty mapping is a row (all fields absent); dropping falsy rows renumbers every later one."""
+    ctx.rule(rule, "ProcessTasks.filter hands every row of the evaluation on: the payload of the T4 record is list(<evaluate(...)>) (or an unfiltered comprehension over it)")
+    recs = [x for x in ast.walk(proc) if isinstance(x, (ast.List, ast.Tuple)) and x.elts and const_str(x.elts[0]) == "T4" and len(x.elts) == 3]
+    ctx.floor(rule, "T4 records built in ProcessTasks.filter", len(recs), 1)
+    for r in recs:
+        v = r.elts[2]
+        vs = [v] if not isinstance(v, ast.Name) else assigned_value(proc, v.id)
+        ok = bool(vs)
+        for x in vs:
+            direct = isinstance(x, ast.Call) and call_name(x) in ("list", "tuple") and len(x.args) == 1 and isinstance(x.args[0], ast.Call) and call_tail(x.args[0]) == "evaluate"
+            comp = isinstance(x, ast.ListComp) and len(x.generators) == 1 and not x.generators[0].ifs and isinstance(x.generators[0].iter, ast.Call) and call_tail(x.generators[0].iter) == "evaluate" \
+                and unparse(x.elt) == unparse(x.generators[0].target)
+            ok = ok and (direct or comp)
+        ctx.ob(rule, PROC, "ProcessTasks.filter", r, "the rows of an evaluation reach the record unfiltered and in order", ok, detail={"rows": [unparse(x)[:80] for x in vs]})
 
 
 def r11_plain_decoder(ctx, dec):
@@ -498,6 +544,8 @@ def _sort_keys_default(tree):
 
 
 CONTROLS = [
+    ("empty rows of an evaluation are dropped", PROC, M.replace_expr("ProcessTasks.filter", "list(SafeEvaluator(val).evaluate(env, lrn))", "[row for row in SafeEvaluator(val).evaluate(env, lrn) if row]"), "C07.R13"),
+    ("the call-style helper hands its default kwargs out", "coba/safety.py", M.insert_before("SafeLearner._safe_call", lambda st: True, "self._last_kwargs = kwargs"), "C07.R12"),
     ("records decoded with the class-rebuilding decoder", RES, M.replace_expr("TransactionDecode.filter", "map(json.loads, transactions)", "map(coba.json.loads, transactions)"), "C07.R11"),
     ("repair counts the kept offset from the end of the file", EXP, M.replace_expr("_drop_partial_record", "start + end + 1 if end >= 0 else 0", "size - (pos - start - end - 1) if end >= 0 else 0"), "C07.R10"),
     ("result records written eight at a time", EXP, M.replace_expr("Experiment.run", "DiskSink(result_file, batch=1)", "DiskSink(result_file, batch=8)"), "C07.R9"),
